@@ -1,2 +1,3 @@
 -- facts regenerated from /repo by extract/ on every run
 import Generated.Facts
+import Generated.GoCode
